@@ -312,6 +312,9 @@ pub fn run_check(replay: Option<Value>) -> i32 {
         linear_homogeneous: false,
     };
     let mut sprobs: Vec<(Prob, f64)> = vec![(base(Base::Harmonic(1.3)), 3.0), (warp(&base(Base::Logistic(2.0)), Warp::Sin), 2.5), (warp(&base(Base::Harmonic(1.0)), Warp::Quad), 2.0), (tracking, 10.0)];
+    // the same oscillator in units of 1e-7 (span 3e-7, steps far below 1e-6): nothing in the lookup of the step that
+    // contains t may be an absolute time
+    sprobs.push((crate::problems::timescale(&base(Base::Harmonic(1.3)), 1e7), 3e-7));
     if crate::report::is_thorough() {
         sprobs.push((base(Base::Spiral(0.3, 2.0)), 3.0));
         sprobs.push((base(Base::Lin3), 2.0));
@@ -368,7 +371,8 @@ pub fn run_check(replay: Option<Value>) -> i32 {
                         rep.violations.push(
                             Violation::new(&key, "sol-interior", format!("{}{} on {}: worst {} error inside steps {:e} vs worst endpoint error {:e}", mname(m), if backward { " backward" } else { "" }, pr.name, api, worst, worst_end), json!({"key": key}))
                                 .with("method", mname(m))
-                                .with("api", api),
+                                .with("api", api)
+                                .with("scene", format!("sprob{}", pi)),
                         );
                     }
                 };
